@@ -87,8 +87,8 @@ def cases(tier):
     for st, k in spec:
         cs.append(Case(f"{st}:{k}:uncapped", h_star, dict(star=st, sweeps=k, regime="uncapped"),
                        weight=k * len(STARS[st][1])))
-    # (3 leaves in the capped regime did not finish within 200 s: outside the bound)
-    for st, k in ([("star2", 1)] + ([("star2", 2)] if tier == "thorough" else [])):
+    # (3 leaves, or 2 sweeps, in the capped regime did not finish (200 s / 2400 s): outside the bound)
+    for st, k in [("star2", 1)]:
         cs.append(Case(f"{st}:{k}:capped", h_star, dict(star=st, sweeps=k, regime="capped"),
                        weight=10))
     return cs
